@@ -125,6 +125,38 @@ def st_case(draw, threaded=None, ops=graphs.ALL_OPS, multiprocess=False):
                 cfg=cfg, policy=draw(policies.st_policy()))
 
 
+@st.composite
+def st_plugin_capacity(draw):
+    """A laggy diamond behind a multi-output plugin whose room comes from Plugin.max_messages only: source -> multi-output
+    (x, y) -> overlap window on x -> loop joining the window output with y.  The context-wide capacity is 1-2; every
+    plugin carries max_messages above the number of chunks, so the capacity exceeds the lag on every mailbox of a
+    computed data type, first and non-first outputs alike."""
+    w = [draw(st.integers(0, 2)), draw(st.integers(0, 3))]
+    nodes = [
+        dict(name="s0", op="source", overlapping=False, save_when=0, rechunk_on_save=False, target_rows=None),
+        dict(name="n0", op="multi", deps=["s0"], outs=["n0x", "n0y"] if draw(st.booleans()) else ["n0a", "n0b"],
+             save_when=0, rechunk_on_save=False, target_rows=None),
+    ]
+    first, second = nodes[1]["outs"]
+    through, direct = (first, second) if draw(st.booleans()) else (second, first)
+    nodes.append(dict(name="n1", op="overlap", deps=[through], w=w, scalar_window=False, save_when=0,
+                      rechunk_on_save=False, target_rows=None))
+    nodes.append(dict(name="n2", op="loop", deps=["n1", direct], save_when=0, rechunk_on_save=False,
+                      target_rows=None))
+    spec = dict(nodes=nodes)
+    unit = draw(st.sampled_from([1, 7]))
+    rows = {"s0": draw(gen.st_rows(max_n=9, mode="disjoint"))}
+    t1 = max([b for _, b in rows["s0"]] + [1]) + draw(st.integers(0, 2))
+    cuts = {"s0": draw(gen.st_cuts(rows["s0"], 0, t1, max_cuts=8))}
+    nchunks = 2 * (len(cuts["s0"]) + 1)
+    for n in nodes:
+        n["max_messages"] = nchunks + 3
+    cfg = dict(processor="threaded_mailbox", max_workers=draw(st.sampled_from([1, 1, 2])),
+               allow_lazy=draw(st.booleans()), max_messages=draw(st.integers(1, 2)), allow_rechunk=False)
+    return dict(spec=spec, unit=unit, rows=rows, t1=t1, cutsA=cuts, cutsB=cuts, stored=[], target="n2", cfg=cfg,
+                policy=draw(policies.st_policy()))
+
+
 def scratch_dir(tag):
     base = os.environ.get("VERIF_SCRATCH") or os.path.join(os.path.dirname(os.path.dirname(
         os.path.dirname(os.path.abspath(__file__)))), ".work", "tmp")
@@ -336,6 +368,8 @@ def steer(d, spec, prov):
 SUBCHECKS = [
     SubCheck("single", run_case, strategy=lambda: st_case(threaded=False), quick=4000, thorough=120000),
     SubCheck("threaded", run_case, strategy=lambda: st_case(threaded=True), quick=3000, thorough=80000),
+    SubCheck("plugin_capacity", run_case, strategy=st_plugin_capacity, quick=600, thorough=20000,
+             required_classes=("capacity_by_plugin_max_messages",)),
     SubCheck("multiprocess", run_case, strategy=lambda: st_case(threaded=True, multiprocess=True), quick=1500,
              thorough=40000, required_classes=("inlined_job_crossed_process_boundary", "forked_saver")),
 ]
